@@ -7,6 +7,7 @@ import (
 	"errors"
 	"fmt"
 	"math/rand"
+	"net"
 	"time"
 
 	"github.com/aldas/go-modbus-client/packet"
@@ -149,7 +150,21 @@ func mkFrame(rng *rand.Rand, class string, fcSel int) frame {
 		if fc == 23 {
 			off = 16
 		}
-		b[off] = byte(int(b[off]) + []int{1, -1, 2, 7, -2}[rng.Intn(5)])
+		if rng.Intn(2) == 0 {
+			b[off] = byte(int(b[off]) + []int{1, -1, 2, 7, -2}[rng.Intn(5)])
+		} else {
+			// byte count equals the data present, but the quantity field (kept inside the legal range) disagrees with it
+			qoff := off - 2
+			qv := int(b[qoff])<<8 | int(b[qoff+1])
+			nq := qv + []int{1, -1, 2}[rng.Intn(3)]
+			if nq < 1 {
+				nq = qv + 1
+			}
+			if lim := map[uint8]int{15: 1968, 16: 123, 23: 121}[fc]; nq > lim {
+				nq = qv - 1
+			}
+			b[qoff], b[qoff+1] = byte(nq>>8), byte(nq)
+		}
 		f.b = b
 	}
 	return f
@@ -231,6 +246,23 @@ func checkReply(c *Case, r *mon.Rec, f frame, reply []byte, ref []byte, where st
 	case f.class == "valid" && f.mode == "dev" && ref != nil && !bytes.Equal(reply, ref):
 		r.Violate(c, "reply-differs-from-device", a, fmt.Sprintf("%s: device reference reply % x", ctx, head(ref)))
 	}
+}
+
+// readReply reads one reply: 9 bytes first, then the rest according to the length field.
+func readReply(conn net.Conn) []byte {
+	rep, _ := readReplyErr(conn)
+	return rep
+}
+
+func readReplyErr(conn net.Conn) ([]byte, error) {
+	rep, rerr := srvx.ReadN(conn, 9, 2*time.Second)
+	if rerr == nil && len(rep) == 9 {
+		if n := 6 + int(rep[4])<<8 + int(rep[5]); n > 9 && n <= 300 {
+			more, _ := srvx.ReadN(conn, n-9, 2*time.Second)
+			rep = append(rep, more...)
+		}
+	}
+	return rep, rerr
 }
 
 func head(b []byte) []byte {
@@ -362,6 +394,9 @@ func runSeq(c *Case, r *mon.Rec, rng *rand.Rand) {
 	modes := map[uint16]string{}
 	l := srvx.NewMemListener()
 	s := &server.Server{OnErrorFunc: func(error) {}}
+	if c.Seed%2 == 0 {
+		s.OnErrorFunc = nil // default configuration: the server logs connection errors itself
+	}
 	ctx, cancel := context.WithCancel(context.Background())
 	served := make(chan error, 1)
 	go func() {
@@ -452,7 +487,29 @@ func runSeq(c *Case, r *mon.Rec, rng *rand.Rand) {
 			continue
 		}
 		_ = conn.SetWriteDeadline(time.Now().Add(2 * time.Second))
-		if _, err := conn.Write(f.b); err != nil {
+		rest := f.b
+		if !st.control && f.class == "valid" && len(f.b) > 9 && rng.Intn(3) == 0 && i+1 < len(steps) && steps[i+1].control {
+			// leave an incomplete frame pending on this connection while the control connection does a whole exchange
+			k := 1 + rng.Intn(len(f.b)-1)
+			if _, err := conn.Write(f.b[:k]); err != nil {
+				r.Violate(c, "connection-lost", mon.Attrs{"where": where}, fmt.Sprintf("step %d: write of a %d-byte prefix failed: %v", i, k, err))
+				return
+			}
+			rest = f.b[k:]
+			cf := steps[i+1].f
+			steps[i+1].f.class = "done"
+			_ = control.SetWriteDeadline(time.Now().Add(2 * time.Second))
+			if _, err := control.Write(cf.b); err != nil {
+				r.Violate(c, "connection-lost", mon.Attrs{"where": "control-connection"}, fmt.Sprintf("step %d: %v", i, err))
+				return
+			}
+			crep := readReply(control)
+			checkReply(c, r, cf, crep, nil, "control-connection-while-partial-frame-pending")
+		}
+		if f.class == "done" {
+			continue
+		}
+		if _, err := conn.Write(rest); err != nil {
 			r.Violate(c, "connection-lost", mon.Attrs{"where": where}, fmt.Sprintf("step %d: write of %s frame failed: %v", i, f.class, err))
 			return
 		}
@@ -478,14 +535,7 @@ func runSeq(c *Case, r *mon.Rec, rng *rand.Rand) {
 			r.Distinct(mon.Mix(77, mon.HashS(f.mode), uint64(f.fc)))
 			continue
 		}
-		// read the reply: 9 bytes first, then the rest according to the length field
-		rep, rerr := srvx.ReadN(conn, 9, 2*time.Second)
-		if rerr == nil && len(rep) == 9 {
-			if n := 6 + int(rep[4])<<8 + int(rep[5]); n > 9 && n <= 300 {
-				more, _ := srvx.ReadN(conn, n-9, 2*time.Second)
-				rep = append(rep, more...)
-			}
-		}
+		rep, rerr := readReplyErr(conn)
 		if rerr != nil && len(rep) == 0 {
 			a := mon.Attrs{"where": where, "class": f.class, "mode": f.mode}
 			r.Violate(c, "no-reply", a, fmt.Sprintf("step %d on the %s: %s frame (fc %d, handler %s) % x got no reply: %v", i, where, f.class, f.fc, f.mode, head(f.b), rerr))
